@@ -75,7 +75,7 @@ theorem C02_tile (env : Env) (d : DestSt) (dst : String) (P data : List UInt8) (
       Route.getPacketDestination, hr.hbusy, transmissionMode, hr.hmode, nonIdleFsm,
       fsmAdvancementAfterPacketsWereSent, hr.hqueue, hr.hstep, fsmFromReceiving, handleFdOrEofPdu, handleFdPdu,
       fdIndication, hi, getP, emitInd, hr.htid, fdLostSegments, fdWrite, vfsWriteData, hr.hrej, hr.hname,
-      Fs.writeData, hr.hfile, hw, fdAfterWrite, modP, hr.hnoEof, hr.hprog, fsmFromWaitingForMetadata,
+      Fs.writeData, hr.hfile, hw, fdAfterWrite, sizeErrOf, modP, hr.hnoEof, hr.hprog, fsmFromWaitingForMetadata,
       fsmFromCheckLimit, fsmFromWaitingForMissingData, fsmFromTransferCompletion, fsmFromSendingFinishedPdu,
       fsmFromWaitingForFinishedAck, afterTile, hr.hfin]
   · exact { hbusy := hr.hbusy, hstep := hr.hstep, hready := hr.hready, hqueue := hr.hqueue, hmode := hr.hmode,
